@@ -3,6 +3,7 @@ package c01
 import (
 	"fmt"
 	"github.com/go-kid/ioc/app"
+	"github.com/go-kid/ioc/component_definition"
 	"github.com/go-kid/ioc/container/processors"
 	"os"
 	"reflect"
@@ -599,4 +600,86 @@ func TestKnownStaleEarlyReferenceAfterFailedCreation(t *testing.T) {
 	fails := err1 != nil && err2 == nil && b.A != nil && any(b.A) != got2 && d.A != nil && any(d.A) == got2
 	kit.Rec.KnownWitness(class, fails, fmt.Sprintf("lookup 1 err=%v; lookup 2 err=%v returns %v; k-b holds %v, k-d holds %v", err1 != nil, err2, got2, b.A, d.A))
 	t.Logf("witness fails=%v: lookup 1 err=%v; lookup 2 err=%v returns %v; k-b holds %v, k-d holds %v", fails, err1, err2, got2, b.A, d.A)
+}
+
+// ---------------------------------------------------------------------------------------------------
+// A post-processor replaces a component by ANOTHER INSTANCE OF THE SAME TYPE (a configured copy returned after
+// initialization, or a pre-built instance handed out before instantiation). The replacement is the singleton:
+// pointer fields, slice elements, by-name `any` fields and the lookup all refer to it.
+
+type SRepo struct {
+	Tag string
+	N   int
+}
+
+func (*SRepo) Naming() string { return "s-repo" }
+
+type SHolder struct {
+	P   *SRepo   `wire:""`
+	All []*SRepo `wire:""`
+	Any any      `wire:"s-repo"`
+}
+
+type sameTypePP struct {
+	processors.DefaultInstantiationAwareComponentPostProcessor
+	mode    string // "after" | "beforeinst"
+	replica *SRepo
+}
+
+func (p *sameTypePP) PostProcessBeforeInstantiation(m *component_definition.Meta, name string) (any, error) {
+	if p.mode == "beforeinst" && name == "s-repo" {
+		return p.replica, nil
+	}
+	return nil, nil
+}
+
+func (p *sameTypePP) PostProcessAfterInitialization(c any, name string) (any, error) {
+	if p.mode == "after" && name == "s-repo" {
+		if r, ok := c.(*SRepo); ok && r != p.replica {
+			return p.replica, nil
+		}
+	}
+	return c, nil
+}
+
+func TestSameTypeReplacement(t *testing.T) {
+	kit.Rec.Rule(rule)
+	for _, mode := range []string{"after", "beforeinst"} {
+		for _, holderFirst := range []bool{false, true} {
+			orig, replica := &SRepo{Tag: "registered"}, &SRepo{Tag: "replacement"}
+			h := &SHolder{}
+			comps := []any{orig, h, &sameTypePP{mode: mode, replica: replica}}
+			if holderFirst {
+				comps[0], comps[1] = comps[1], comps[0]
+			}
+			out := kit.RunApp(app.SetComponents(comps...))
+			desc := fmt.Sprintf("same-type replacement %s, holder registered first=%v", mode, holderFirst)
+			if !out.OK() {
+				// a start that is refused is not an identity question
+				kit.Rec.Case(desc+" (start refused)", false, "same-type-replacement-refused")
+				continue
+			}
+			got, err := out.App.GetComponentByName("s-repo")
+			if err != nil {
+				t.Fatalf("C01: %s: lookup failed: %v", desc, err)
+			}
+			fail := func(what string, v any) {
+				kit.DumpReplay("c01-same-type-replacement", map[string]any{"case": desc, "what": what})
+				t.Fatalf("C01: %s: the lookup returns %p (%+v) but %s refers to %p: two versions of one singleton", desc, got, got, what, v)
+			}
+			if any(h.P) != got {
+				fail("the holder's pointer field", h.P)
+			}
+			if len(h.All) != 1 || any(h.All[0]) != got {
+				fail(fmt.Sprintf("the holder's slice %v", h.All), nil)
+			}
+			if h.Any != got {
+				fail("the holder's by-name any field", h.Any)
+			}
+			if got != any(replica) {
+				t.Fatalf("C01: %s: the container publishes %+v, not the replacement the post-processor returned", desc, got)
+			}
+			kit.Rec.Case(desc, true, "same-type-replacement")
+		}
+	}
 }
